@@ -194,25 +194,31 @@ def run_scripts(ctx, scripts, name, shards=None):
         for s in scripts:
             f.write(json.dumps(s) + "\n")
     shards = shards or min(NCPU, max(1, len(scripts) // 20))
-    procs = []
-    for i in range(shards):
+
+    def shard(i):
+        """one worker process for shard i, restarted after a script on which it
+        got stuck (goroutines parked in the library for good) or crashed"""
+        outs_i, viols_i, runs, distinct = [], [], 0, 0
         out = os.path.join(d, "t%d.ndjson" % i)
-        procs.append((i, out, subprocess.Popen(
-            [h, "calls", "--scripts", sf, "--out", out, "--shard", str(i), "--shards", str(shards),
-             "--firstrun", str(1 + i * 1000000)],
-            stdout=subprocess.PIPE, stderr=subprocess.PIPE, text=True, env=vlib.go_env())))
-    outs = []
-    for i, out, p in procs:
-        try:
-            so, se = p.communicate(timeout=3600)
-        except subprocess.TimeoutExpired:
-            p.kill()
-            raise vlib.Infra("harness worker timed out")
-        rc = p.returncode
-        # a worker that got stuck or crashed is restarted after the script it was on
+        args = [h, "calls", "--scripts", sf, "--out", out, "--shard", str(i), "--shards", str(shards),
+                "--firstrun", str(1 + i * 1000000)]
         guard = 0
-        while rc != 0 and guard < 50:
-            guard += 1
+        while True:
+            try:
+                p = subprocess.run(args, stdout=subprocess.PIPE, stderr=subprocess.PIPE, text=True, env=vlib.go_env(),
+                                   timeout=3600)
+            except subprocess.TimeoutExpired:
+                raise vlib.Infra("harness worker timed out")
+            rc, so, se = p.returncode, p.stdout, p.stderr
+            outs_i.append(out)
+            try:
+                j = json.loads(so.strip().splitlines()[-1])
+                runs += j["runs"]
+                distinct += j["distinct"]
+            except Exception:
+                pass
+            if rc == 0:
+                break
             last = journal_last(out)
             crash = crash_event(se) if rc != 3 else None
             if rc != 3 and crash is None:
@@ -220,26 +226,27 @@ def run_scripts(ctx, scripts, name, shards=None):
             if crash is not None:
                 # the process died from a panic inside the library: that is
                 # an observable behaviour of the real code
-                ctx.add_violation(dict(prop="C05", why="process-crash-in-library", tr=scripts[last]["tr"],
-                                       kind=scripts[last]["kind"], ev="Panic", script=scripts[last],
-                                       text=crash))
-            outs.append(out)
-            out = out + ".r%d" % guard
-            p2 = subprocess.run([h, "calls", "--scripts", sf, "--out", out, "--shard", str(i), "--shards",
-                                 str(shards), "--firstrun", str(1 + i * 1000000 + guard * 50000),
-                                 "--start", str(last + 1)],
-                                stdout=subprocess.PIPE, stderr=subprocess.PIPE, text=True, env=vlib.go_env(),
-                                timeout=3600)
-            rc, so, se = p2.returncode, p2.stdout, p2.stderr
-        if rc != 0:
-            raise vlib.Infra("harness worker keeps failing:\n" + se[-2000:])
-        outs.append(out)
-        try:
-            j = json.loads(so.strip().splitlines()[-1])
-            ctx.evaluations += j["runs"]
-            ctx.distinct += j["distinct"]
-        except Exception:
-            pass
+                viols_i.append(dict(prop="C05", why="process-crash-in-library", tr=scripts[last]["tr"],
+                                    kind=scripts[last]["kind"], ev="Panic", script=scripts[last], text=crash))
+            guard += 1
+            if guard >= 40:
+                # the code under test keeps wedging this worker: what was recorded
+                # so far is judged, the rest of the shard is left out
+                vlib.log("shard %d of %s given up after %d restarts" % (i, name, guard))
+                break
+            out = os.path.join(d, "t%d.ndjson.r%d" % (i, guard))
+            args = [h, "calls", "--scripts", sf, "--out", out, "--shard", str(i), "--shards", str(shards),
+                    "--firstrun", str(1 + i * 1000000 + guard * 20000), "--start", str(last + 1)]
+        return outs_i, viols_i, runs, distinct
+
+    outs = []
+    with cf.ThreadPoolExecutor(max_workers=shards) as ex:
+        for outs_i, viols_i, runs, distinct in ex.map(shard, range(shards)):
+            outs += outs_i
+            for v in viols_i:
+                ctx.add_violation(v)
+            ctx.evaluations += runs
+            ctx.distinct += distinct
     # B-mon: one TLC replay per worker file, in parallel
     viol = []
     files = [o for o in outs if os.path.exists(o) and os.path.getsize(o) > 0]
@@ -543,7 +550,14 @@ def family_a(ctx, focus):
         raise vlib.Infra("L0 rejects a trace of the standard gRPC transport (specification bug): %s" %
                          json.dumps({k: rv[0].get(k) for k in ("prop", "why", "kind", "ev")}))
     _tick(ctx, "ref calibration")
-    run_scripts(ctx, scripts, "main")
+    # the main set in interleaved chunks; once the property under check has
+    # been seen violated, further chunks add nothing to the verdict
+    nch = max(1, (len(scripts) + 2999) // 3000)
+    for k in range(nch):
+        run_scripts(ctx, scripts[k::nch], "main" if k == 0 else "main-%d" % k)
+        if ctx.viol and k + 1 < nch:
+            ctx.extra["stopped_after_chunk"] = "%d of %d (violations of %s found)" % (k + 1, nch, ctx.prop)
+            break
     _tick(ctx, "scripts on the real code + B-mon")
     run_pinned(ctx)
     _tick(ctx, "pinned")
